@@ -138,6 +138,17 @@ class Program(object):
             statement.fix_addresses(self.statements, index)
             statement.fit_operand_width()
 
+        # An EQU defined by an expression of constants is listed with its value; one that cannot be evaluated is an error
+        for symbol, value in self.symbol_table.items():
+            if value.is_expression():
+                try:
+                    resolved = value.resolve(self.symbol_table)
+                except Exception as error:
+                    statement = next(statement for statement in self.statements if statement.label == symbol)
+                    raise TranslationError(str(error), statement)
+                if resolved.is_numeric():
+                    self.symbol_table[symbol] = resolved
+
         # Update the symbol table with the proper addresses
         for symbol, value in self.symbol_table.items():
             if value.is_address():
